@@ -286,6 +286,23 @@ Section Programs.
       a pulse of proportion 0 moves nothing. *)
   Hypothesis H_T0 : forall nus ms gs hs th be fr nm s, o_integrate 0 nus ms gs hs th be fr nm s = s.
   Hypothesis H_pulse0 : forall d srcs dst fs s, Forall (fun f => f = 0) fs -> o_pulse d srcs dst fs s = s.
+  (** third fact (rule [fuse] of the normaliser): directly after the first split (PhiManip.phi_1D_to_2D: a density
+      concentrated on the diagonal) a third population created by admixture in ANY proportion is the split of population 2
+      (phi_2D_to_3D_split_2 = phi_2D_to_3D_admix with proportion 0): on the diagonal f x + (1 - f) x = x *)
+  Hypothesis H_admix_diag : forall f s, o_admixnew 2 [f] (o_split 1 0 s) = o_split 2 1 (o_split 1 0 s).
+
+  Lemma fuse_sound i r env s : semp (fuse i r) env s = semp (Step i r) env s.
+  Proof.
+    destruct i; try reflexivity.
+    destruct r as [|j r'|]; try reflexivity.
+    destruct j; try reflexivity.
+    destruct fs as [|f [|f' fs']]; try reflexivity.
+    cbn [fuse].
+    destruct (Nat.eqb d 1 && Nat.eqb parent 0 && Nat.eqb d0 2) eqn:E; [|reflexivity].
+    apply andb_true_iff in E. destruct E as [E E3]. apply andb_true_iff in E. destruct E as [E1 E2].
+    apply Nat.eqb_eq in E1, E2, E3. subst d parent d0.
+    cbn [sem sem_instr map]. rewrite H_admix_diag. reflexivity.
+  Qed.
 
   Lemma instr_eqb_sound i j : instr_eqb i j = true -> forall env s, semi i env s = semi j env s.
   Proof.
@@ -354,7 +371,7 @@ Section Programs.
       - reflexivity.
       - destruct (is_identity (map_instr (simp A) i)) eqn:E.
         + rewrite IHp. rewrite <- (simp_instr_sound i s). rewrite (is_identity_sound _ s E). reflexivity.
-        + simpl. rewrite IHp, simp_instr_sound. reflexivity.
+        + rewrite fuse_sound. simpl. rewrite IHp, simp_instr_sound. reflexivity.
       - destruct (decide_ge A (simp A a) (simp A b)) as [bb|] eqn:E.
         + pose proof (decide_ge_sound A env Hok _ _ _ E) as D.
           rewrite !(simp_ev0 A env Hok) in D.
